@@ -90,6 +90,7 @@ package method
 
 //@ func AvailableContextDebug
 //@   props C09
+//@   assigns nothing
 //@   maprange 1 unordered-result lines
 
 // ---- C06: the method index as a data structure ----
